@@ -31,6 +31,7 @@ abbrev OBJ_GEOM : Int := 5
 abbrev OBJ_SITE : Int := 6
 abbrev OBJ_CAMERA : Int := 7
 
+abbrev SENS_TOUCH : Int := 0
 abbrev SENS_GEOMFROMTO : Int := 41
 abbrev SENS_CONTACT : Int := 42
 
